@@ -47,6 +47,7 @@ type mval struct {
 	name                string
 	compound, array     bool
 	isRoot, gap, isUint bool
+	synthetic           bool  // a derived value (FieldValueUint): no bits, not part of its parent's range
 	start, length       int64 // in the coordinates of its buffer, as of creation
 	buf                 int
 	keepStart           bool // a nested buffer decoded as a format: placed at the parent's position
@@ -74,6 +75,7 @@ type apiGen struct {
 	nodes   int
 	names   int
 	probes  map[string]int
+	pastEnd bool // the position was moved past the end: the next operation adds an empty field there
 }
 
 func (g *apiGen) name() string { g.names++; return fmt.Sprintf("f%d", g.names) }
@@ -131,12 +133,25 @@ func (g *apiGen) seq(c *mctx, depth int, maxOps int) ([]*apiNode, bool) {
 		if !ok {
 			return out, false
 		}
+		if g.pastEnd {
+			// even an empty field cannot lie outside the buffer: the decode fails here
+			g.pastEnd = false
+			g.probes["empty_field_past_end_attempt"]++
+			return append(out, &apiNode{Op: "raw", Name: g.name(), N: 0}), false
+		}
 	}
 	return out, true
 }
 
 func (g *apiGen) leaf(c *mctx) (*apiNode, bool) {
 	avail := c.limit - c.pos
+	if g.t.Intn(10) == 0 {
+		// a derived value: no bits of its own
+		nd := &apiNode{Op: "value", Name: g.name(), N: int64(g.t.Intn(1000))}
+		g.add(c, &mval{name: nd.Name, start: c.base + c.pos, length: 0, buf: c.buf, isUint: true, u: uint64(nd.N), synthetic: true})
+		g.probes["synthetic_value"]++
+		return nd, true
+	}
 	if g.t.Intn(3) == 0 {
 		// raw bits, zero length now and then
 		lo := g.gran
@@ -301,7 +316,8 @@ func (g *apiGen) op(c *mctx, depth int) (*apiNode, bool) {
 		// skip forward
 		n, fails := g.size(avail, 0, 64)
 		if fails {
-			n = avail // a seek past the end is the reader's business (C01)
+			// seeking past the end is allowed; decoding anything there is not
+			g.pastEnd = true
 		}
 		c.pos += n
 		return &apiNode{Op: "skip", N: n}, true
@@ -493,7 +509,7 @@ func (v *mval) finish(tolerant bool) {
 		}
 	}()
 	for _, k := range v.kids {
-		if k.isRoot {
+		if k.isRoot || k.synthetic {
 			continue
 		}
 		if first {
@@ -536,6 +552,9 @@ func (v *mval) dump(path string, top bool, out *[]string) {
 	case v.isUint:
 		kind = fmt.Sprintf("u=%d", v.u)
 	}
+	if v.synthetic {
+		kind += " derived"
+	}
 	rng := fmt.Sprintf("%d+%d", v.start, v.length)
 	if v.isRoot && !top {
 		rng = "(own buffer)" // how a nested root is placed in its parent is not part of the statement
@@ -574,6 +593,9 @@ func apiDumpReal(v *decode.Value, path string, top bool, out *[]string) {
 			kind = "gap"
 		}
 	}
+	if isSynthetic(v) {
+		kind += " derived"
+	}
 	rng := fmt.Sprintf("%d+%d", v.Range.Start, v.Range.Len)
 	if v.IsRoot && !top {
 		rng = "(own buffer)"
@@ -604,7 +626,7 @@ func (n *apiNode) String() string {
 		sb.WriteString(" " + n.Name)
 	}
 	switch n.Op {
-	case "u", "raw", "framed", "limited", "skip", "loopu", "formatlen":
+	case "u", "raw", "framed", "limited", "skip", "loopu", "formatlen", "value":
 		fmt.Fprintf(&sb, " %d", n.N)
 	case "range", "formatrange":
 		fmt.Fprintf(&sb, " %d+%d", n.P, n.N)
@@ -654,6 +676,8 @@ func apiExec(d *decode.D, ns []*apiNode) {
 			d.FieldU(n.Name, int(n.N))
 		case "raw":
 			d.FieldRawLen(n.Name, n.N)
+		case "value":
+			d.FieldValueUint(n.Name, uint64(n.N))
 		case "struct":
 			d.FieldStruct(n.Name, fn)
 		case "array":
